@@ -159,6 +159,12 @@ static void check_item(const op *O, size_t plen)
         if (O->run == r_verify32 && b == 1) memcpy(base + 32, base, 32);
         if (O->run == r_verify64 && b == 1) memcpy(base + 64, base, 64);
         if (O->run == r_unpad) { memset(base + 48, 0, 16); base[48 + 5] = 0x80; }              /* a valid padding as base */
+        /* verification wrappers: the public candidate tag is the correct tag of the BASE secret with its last byte changed, so the comparison differs
+         * at the end for the base and at the start for every variant - an early-exit comparison of the secret-derived tag shows in the trace */
+        if (O->run == r_auth_verify) { crypto_auth(OUT2, base + 32, plen, base); OUT2[31] ^= 1; }
+        else if (O->run == r_auth256_verify) { crypto_auth_hmacsha256(OUT2, base + 32, plen, base); OUT2[31] ^= 1; }
+        else if (O->run == r_auth512_verify) { crypto_auth_hmacsha512(OUT2, base + 32, plen, base); OUT2[63] ^= 1; }
+        else if (O->run == r_poly_verify) { crypto_onetimeauth(OUT2, base + 32, plen, base); OUT2[15] ^= 1; }
         memcpy(SEC, base, slen); traced(O, hw, 0);                                             /* warm-up (discarded) */
         memcpy(SEC, base, slen); traced(O, hb, 0);
         memcpy(SEC, base, slen); traced(O, hw, 0);
